@@ -16,7 +16,7 @@ EXTENDS MQTTWire
 
 VARIABLE pool
 
-TypeNum(name) == CHOOSE t \in 0..15 : TypeName(t) = name
+TypeNum(name) == CHOOSE t \in 0..16 : TypeName(t) = name
 
 (* the wire packet a freshly constructed packet of type t stands for *)
 Blank(t) ==
@@ -31,7 +31,7 @@ Blank(t) ==
          ELSE IF t \in {9, 11} THEN [PacketID |-> 0, Props |-> <<>>, ReasonCodes |-> <<>>]
          ELSE EmptyFn]
 
-NewObs(t) == ObsOfWire(Blank(t))
+NewObs(t) == IF t = 16 THEN [Filter |-> <<>>, Options |-> 0] ELSE ObsOfWire(Blank(t))
 
 (* setter name -> accessor key, for setters that store their argument *)
 PlainKey ==
@@ -52,10 +52,13 @@ PlainKey ==
    SetMessageExpiryInterval |-> "MessageExpiryInterval", SetTopicAlias |-> "TopicAlias",
    SetResponseTopic |-> "ResponseTopic", SetCorrelationData |-> "CorrelationData",
    SetContentType |-> "ContentType", SetPayload |-> "Payload",
-   SetSubscriptionID |-> "SubscriptionID"]
+   SetSubscriptionID |-> "SubscriptionID", SetFilter |-> "Filter", SetOptions |-> "Options"]
 
 SetBit(x, k, b) == IF b = Bit(x, k) THEN x ELSE IF b THEN x + 2 ^ k ELSE x - 2 ^ k
 
+(* The will of a CONNECT is a reference to a PUBLISH handle (ref): Will() returns that very packet, so later calls  *)
+(* on it show through the accessor, while the CONNECT's flags and its copy of the payload date from SetWill.      *)
+(* val is what Will() reports; stale records that the will was modified after it was attached (outside D1).      *)
 (* the fields of a PUBLISH that a will message carries *)
 WillKeys == {"TopicName", "Payload", "QoS", "Retain", "PayloadFormat", "MessageExpiryInterval",
              "ContentType", "ResponseTopic", "CorrelationData", "UserProperties"}
@@ -85,7 +88,7 @@ Apply(t, o, m, a, wp) ==
   ELSE IF t = 1 /\ m = "SetCleanStart" THEN
        [o EXCEPT !["CleanStart"] = a[1], !["Flags"] = SetBit(@, 1, a[1])]
   ELSE IF t = 1 /\ m = "SetWill" THEN
-       [o EXCEPT !["Will"] = [has |-> TRUE, val |-> WillSnapshot(wp)],
+       [o EXCEPT !["Will"] = [has |-> TRUE, val |-> WillSnapshot(wp), ref |-> a[1].h, stale |-> FALSE],
                  !["Flags"] = SetBit(SetBit(SetBit(SetBit(@, 2, TRUE), 5, wp["Retain"]),
                                             3, wp["QoS"] % 2 = 1 /\ wp["QoS"] < 3),
                                      4, wp["QoS"] = 2)]
@@ -126,6 +129,7 @@ InC01Domain(t, o) ==
   /\ ("UserProperties" \in DOMAIN o => UPsOK(o["UserProperties"]))
   /\ ("MaxQoS" \in DOMAIN o => o["MaxQoS"] \in {0, 1})
   /\ IF t = 1 THEN
+        /\ (o["Will"].has /\ "stale" \in DOMAIN o["Will"] => ~o["Will"].stale)      \* D1: not modified after it was attached
         /\ (o["Will"].has => LET w == o["Will"].val IN
                /\ w["QoS"] \in 0..2 /\ Len(w["TopicName"]) <= 65535 /\ TextOK(w["TopicName"])
                /\ Len(w["Payload"]) <= 65535 /\ Len(w["CorrelationData"]) <= 65535
